@@ -320,18 +320,27 @@ end Ref
 
 namespace Ref
 
+/-- refmt attaches a tag to the token that follows it; dag-cbor looks at the tag only on byte strings, so a tag in
+    front of anything else is ignored -/
+def untag : Nat → Val → Val
+  | fuel+1, .tag n v => (match v with | .bytes _ => .tag n v | _ => untag fuel v)
+  | _, v => v
+
 /-- dag-cbor TInt/TUint into a Go `int` field: uint above MaxInt64 goes through `assignUInt` → `SetInt(int64(u))` (wraps) -/
-def decInt : Val → Except String Int
+def decInt (v : Val) : Except String Int :=
+  match untag 8 v with
   | .uint n => .ok (castI64 n)
   | .nint n => if n < 9223372036854775808 then .ok (-1 - (n : Int)) else .error "int overflow"
   | _ => .error "wrong kind: expected int"
 
-def decBytes : Val → Except String Bytes
+def decBytes (v : Val) : Except String Bytes :=
+  match untag 8 v with
   | .bytes b => .ok b
   | _ => .error "wrong kind: expected bytes"
 
 /-- dag-cbor link: tag 42, byte string, multibase prefix 0x00, `cid.Cast` of the rest -/
-def decLink : Val → Except String Cid
+def decLink (v : Val) : Except String Cid :=
+  match untag 8 v with
   | .tag 42 (.bytes (b :: rest)) =>
     if b ≠ 0 then .error "invalid multibase on IPLD link"
     else match Cid.cast rest with
@@ -340,7 +349,8 @@ def decLink : Val → Except String Cid
   | .tag 42 (.bytes []) => .error "invalid multibase on IPLD link"
   | _ => .error "wrong kind: expected link"
 
-def decList {α : Type} (f : Val → Except String α) : Val → Except String (List α)
+def decList {α : Type} (f : Val → Except String α) (v : Val) : Except String (List α) :=
+  match untag 8 v with
   | .arr xs => xs.mapM f
   | _ => .error "wrong kind: expected list"
 
@@ -349,9 +359,11 @@ def decList {α : Type} (f : Val → Except String α) : Val → Except String (
 def field {α : Type} (s : FieldSpec) (dec : Val → Except String α) (items : List Val) (i : Nat) : Except String (OptN α) :=
   match items[i]? with
   | none => if s.optional then .ok none else .error s!"missing required field {s.name}"
-  | some .null => if s.nullable then .ok (some none) else .error s!"null in non-nullable field {s.name}"
-  | some .undef => if s.nullable then .ok (some none) else .error s!"null in non-nullable field {s.name}"
-  | some v => (dec v).map fun a => some (some a)
+  | some v =>
+    match untag 8 v with
+    | .null => if s.nullable then .ok (some none) else .error s!"null in non-nullable field {s.name}"
+    | .undef => if s.nullable then .ok (some none) else .error s!"null in non-nullable field {s.name}"
+    | _ => (dec v).map fun a => some (some a)
 
 /-- a required, non-nullable field -/
 def fieldR {α : Type} (s : FieldSpec) (dec : Val → Except String α) (items : List Val) (i : Nat) : Except String α :=
@@ -361,7 +373,8 @@ def fieldR {α : Type} (s : FieldSpec) (dec : Val → Except String α) (items :
   | .error e => .error e
 
 /-- the tuple itself: a list with no more entries than the struct has fields -/
-def tupleItems (nfields : Nat) : Val → Except String (List Val)
+def tupleItems (nfields : Nat) (v : Val) : Except String (List Val) :=
+  match untag 8 v with
   | .arr items => if items.length > nfields then .error "too many tuple entries" else .ok items
   | _ => .error "wrong kind: expected list (tuple)"
 
